@@ -65,8 +65,19 @@ def Oracle.shiftIo (o : Oracle) (k : Nat) : Oracle := { o with io := fun i => o.
 def clampIO (ans : Nat) (req : Int) : Int :=
   if req ≤ 0 then 0 else if (ans : Int) ≤ req then (ans : Int) else req
 
-/-- psf_bump_header_allocation (psf, needed): (state, nonzero-return?, events) -/
+/-- psf_bump_header_allocation (psf, needed): (state, nonzero-return?, events).
+    Since the repair ("fix: the 100k header buffer refused requests that would have fit"): when the doubled request passes the
+    cap the buffer grows to the cap itself, provided `header.indx + needed` fits; denied otherwise (the log line still prints
+    the doubled size). -/
 def bump (s : St) (needed : Int) (allocOk : Bool) : St × Bool × List Ev :=
+  let smallest := INITIAL
+  let newlen := if needed > s.len then 2 * (if needed > smallest then needed else smallest) else 2 * s.len
+  if newlen > CAP ∧ s.indx + needed > CAP then (s, true, [Ev.denied newlen])
+  else if !allocOk then (s, true, [])
+  else ({ s with len := if newlen > CAP then CAP else newlen }, false, [])
+
+/-- the rule before the repair: denied as soon as the doubled request passes the cap -/
+def bumpOld (s : St) (needed : Int) (allocOk : Bool) : St × Bool × List Ev :=
   let smallest := INITIAL
   let newlen := if needed > s.len then 2 * (if needed > smallest then needed else smallest) else 2 * s.len
   if newlen > CAP then (s, true, [Ev.denied newlen])
